@@ -1015,6 +1015,26 @@ func validateNode(node Node, depth int, inSubscript bool) error {
 	return nil
 }
 
+// negated returns the text of the number literal num with its sign flipped.
+func negated(num string) string {
+	if rest, ok := strings.CutPrefix(num, "-"); ok {
+		return rest
+	}
+	return "-" + num
+}
+
+// isInt returns true if num can be parsed into an int64.
+func isInt(num string) bool {
+	_, err := strconv.ParseInt(num, 0, 64)
+	return err == nil
+}
+
+// isFloat returns true if num can be parsed into a float64.
+func isFloat(num string) bool {
+	float, err := strconv.ParseFloat(num, 64)
+	return err == nil && !math.IsInf(float, 0) && !math.IsNaN(float)
+}
+
 // NewUnaryOrNumber returns a new node for op ast.UnaryPlus or ast.UnaryMinus.
 // If node is numeric and not the first item in an accessor list, it returns a
 // ast.NumericNode or ast.IntegerNode, as appropriate.
@@ -1027,8 +1047,11 @@ func NewUnaryOrNumber(op UnaryOperator, node Node) Node {
 				// Just a positive number, return it.
 				return node
 			case UnaryMinus:
-				// Just a negative number, return it with the minus sign.
-				return NewNumeric("-" + node.literal)
+				// Just a negative number, return it with the minus sign; a
+				// number that already has one loses it again.
+				if num := negated(node.literal); isFloat(num) {
+					return NewNumeric(num)
+				}
 			default:
 				panic(fmt.Sprintf("Operator must be + or - but is %v", op))
 			}
@@ -1038,8 +1061,11 @@ func NewUnaryOrNumber(op UnaryOperator, node Node) Node {
 				// Just a positive number, return it.
 				return node
 			case UnaryMinus:
-				// Just a negative number, return it with the minus sign.
-				return NewInteger("-" + node.literal)
+				// Just a negative number, return it with the minus sign; a
+				// number that already has one loses it again.
+				if num := negated(node.literal); isInt(num) {
+					return NewInteger(num)
+				}
 			default:
 				panic(fmt.Sprintf("Operator must be + or - but is %v", op))
 			}
